@@ -12,7 +12,7 @@
 EXTENDS Integers, Sequences, TLC, Json, IOUtils
 
 Cases == JsonDeserialize(IOEnv.TRACE_FILE)
-VARIABLE i
+VARIABLES i, ok
 Fields == <<"status", "flags", "storm", "rise", "pair", "inter", "recession_curve", "rise_curve",
             "recession_members", "rise_members">>
 
@@ -22,8 +22,8 @@ Judge(c) ==
         \A k \in 1..Len(Fields) :
             IF c.runs[r][Fields[k]] = c.runs[1][Fields[k]] THEN TRUE ELSE Fail(c, r, Fields[k])
 
-Init == i = 1
-Next == i <= Len(Cases) /\ Judge(Cases[i]) /\ i' = i + 1
-Spec == Init /\ [][Next]_<<i>>
+Init == i = 1 /\ ok = TRUE
+Next == i <= Len(Cases) /\ ok' = Judge(Cases[i]) /\ i' = i + 1
+Spec == Init /\ [][Next]_<<i, ok>>
 AllConsumed == TLCGet("stats").diameter - 1 = Len(Cases) \/ Len(Cases) = 0
 =============================================================================
